@@ -8,7 +8,7 @@ from ..absint import Interp
 from ..model import AnalysisError, FuncInfo, dotted, norm, walk_no_nested
 from ..report import rule
 from ..shape import (Alt, Attr, CallV, Index, ListOf, Lit, LoopVar, Node, Param, Rep, Seq, Shaper, Star, V, alts, chain, is_lit, nodes, seq_items)
-from ..util import allargs, calls_named, cfg_of, is_const, is_name, key, kw, site_packages_source, strip_pre
+from ..util import allargs, argv, calls_named, cfg_of, is_const, is_name, key, kw, site_packages_source, strip_pre
 
 GS = "graphql_schema_generators."
 NON_SDL = {"resolve", "subscribe", "is_type_of", "resolve_type", "serialize", "parse_value", "parse_literal", "out_name", "out_type",
@@ -303,7 +303,7 @@ def c16_r5(ctx):
         ctx.check(good, key(m, f"format py={fmt}"), f"main.graphql_schema with py={fmt} calls {effs}", m.loc(), okmsg=f"target format py={fmt} -> {fn} with the configured names")
 
 
-@rule("C16.R7", "the schema target and everything read back as GraphQL text use UTF-8, stated explicitly", min_instances=4, also=["C19", "C10"])
+@rule("C16.R7", "the schema target and everything read back as GraphQL text use UTF-8, stated explicitly", min_instances=4, also=["C19", "C10", "C02", "C17"])
 def c16_r7(ctx):
     repo = ctx.repo
 
@@ -330,3 +330,31 @@ def c16_r7(ctx):
                 continue
             ctx.check(utf8(enc), key(fi, f"{meth} encoding"), f"{norm(c)[:90]}: encoding is {norm(enc) if enc is not None else 'the platform default'}, not UTF-8: {why}", fi.loc(c),
                       okmsg=f"{fi.qualname}: {meth}(encoding=utf-8)")
+
+
+@rule("C16.R8", "the text-level multiline-string rewriter is off by default and switched on for the client module only", min_instances=8, also=["C02", "C04", "C10"])
+def c16_r8(ctx):
+    repo = ctx.repo
+    a2s = repo.func("utils:ast_to_str")
+    params = a2s.node.args.args
+    defaults = dict(zip([p.arg for p in params[len(params) - len(a2s.node.args.defaults):]], a2s.node.args.defaults))
+    d = defaults.get("multiline_strings")
+    ctx.check(d is not None and is_const(d, False), key(a2s, "default"), f"ast_to_str(multiline_strings={norm(d) if d is not None else '<required>'}) by default: every generated module - the schema module of the "
+              "graphqlschema strategy included - would be passed through format_multiline_strings, which rewrites string literals by text (an empty-string default makes the formatter fail)",
+              a2s.loc(), okmsg="ast_to_str: multiline_strings defaults to False")
+    outs = Interp(a2s, lambda e: (False if norm(strip_pre(e)) == "multiline_strings" else True if norm(strip_pre(e)) == "remove_unused_imports" else None),
+                  is_effect=lambda c: dotted(c.func) == "format_multiline_strings").run()
+    ctx.check(bool(outs) and not any(o.effects for o in outs) and not any("format_multiline_strings" in norm(o.value) for o in outs if o.value is not None), key(a2s, "off means off"),
+              "format_multiline_strings runs although multiline_strings is False", a2s.loc(), okmsg="multiline_strings=False: the rewriter is not applied")
+    n = 0
+    for fi in repo.all_functions():
+        for c in walk_no_nested(fi.node):
+            if isinstance(c, ast.Call) and isinstance(c.func, ast.Name) and repo.resolve(fi.module, c.func.id) == ("func", a2s):
+                n += 1
+                v = argv(c, 2, "multiline_strings")
+                on = v is not None and not is_const(v, False)
+                allowed = fi.key == "client_generators.package:PackageGenerator._generate_client"
+                ctx.check((not on) or allowed, key(fi, "ast_to_str(multiline_strings=)"), f"{fi.qualname} renders its module with multiline_strings={norm(v) if v is not None else None}: only the client module "
+                          "(which embeds the operation strings) is meant to be rewritten", fi.loc(c), okmsg=f"{fi.qualname}: multiline rewriter {'on (client module)' if on else 'off'}")
+    if n < 8:
+        raise AnalysisError(f"only {n} ast_to_str call sites found")
